@@ -158,7 +158,9 @@ func (column Column) Write(ctx context.Context, writer *buffer.Writer, format Fo
 	}
 
 	bb := make([]byte, 0)
+	verifPoint("encode.enter", tm)
 	bb, err = tm.Encode(uint32(column.Oid), int16(format), src, bb)
+	verifPoint("encode.exit", tm)
 	if err != nil {
 		return err
 	}
